@@ -2,6 +2,7 @@ package bw
 
 import (
 	"fmt"
+	"strconv"
 	"strings"
 
 	"verif/sim/simkit"
@@ -21,7 +22,7 @@ var addrShapes = []string{
 }
 
 var locPool = []string{"", "m1", "m1/sub", "m2"}
-var versionPool = []string{"0.9.0", "1.0.0", "1.0.1", "1.2.0", "1.2.3", "2.0.0", "2.1.0-beta.1", "3.0.0-rc.1", "1.10.0"}
+var versionPool = []string{"0.9.0", "1.0.0", "1.0.1", "1.2.0", "1.2.3", "2.0.0", "2.1.0-beta.1", "3.0.0-rc.1", "1.10.0", "1.4.0+build.7"}
 var constrPool = []string{"", "", ">= 1.0.0", "~> 1.0", "~> 1.2.0", "< 2.0.0", ">= 1.0.0, < 2.0.0", "1.2.3", "1.0.0", "2.1.0-beta.1", ">= 0.0.1", "> 1.0.0", "!= 1.2.3", "<= 1.2.0"}
 
 type gknobs struct {
@@ -96,6 +97,7 @@ func Gen(seed uint64, profile string) *Scenario {
 	}
 	genWorld(simkit.NewRNG(seed, "bw/world"), sc, &k)
 	genAdds(simkit.NewRNG(seed, "bw/adds"), sc, &k)
+	metaTwins(simkit.NewRNG(seed, "bw/meta-twins"), sc)
 	if profile == "faultbase" && len(sc.Regs) > 0 {
 		// the same registry package referenced twice in one build (first path and cached path),
 		// so that a fault on the first reference is followed by a second reference
@@ -141,6 +143,10 @@ func Gen(seed uint64, profile string) *Scenario {
 	}
 	xr := simkit.NewRNG(seed, "bw/extras")
 	for pi := range sc.Pkgs {
+		if pr := simkit.NewRNG(seed, "bw/pad-rules"+strconv.Itoa(pi)); sc.Pkgs[pi].Rules != nil && pr.Chance(1, 12) {
+			s := padRules(*sc.Pkgs[pi].Rules)
+			sc.Pkgs[pi].Rules = &s
+		}
 		if sc.Pkgs[pi].Rules != nil && xr.Chance(1, 6) && !hasPath(sc.Pkgs[pi].Files, "rules.ign") {
 			sc.Pkgs[pi].RulesLink = true
 		}
@@ -369,6 +375,15 @@ func genWorld(r *simkit.RNG, sc *Scenario, k *gknobs) {
 		case 2: // near twin: one path differs
 			tw.Files = append(tw.Files, PFile{Path: "only-in-twin.txt", Kind: "file", Body: "T;", Mode: 0o644})
 		}
+		if tr := simkit.NewRNG(sc.Seed, "bw/twin-spelling"); tr.Chance(1, 4) {
+			// a file name spelled composed in one package and decomposed in the other: two
+			// different paths (on a file system that keeps them apart, as this one does)
+			src := &sc.Pkgs[a]
+			if !hasPath(src.Files, "caf\u00e9.txt") {
+				src.Files = append(src.Files, PFile{Path: "caf\u00e9.txt", Kind: "file", Body: "NF;", Mode: 0o644})
+				tw.Files = append(tw.Files, PFile{Path: "cafe\u0301.txt", Kind: "file", Body: "NF;", Mode: 0o644})
+			}
+		}
 		if simkit.NewRNG(sc.Seed, "bw/twin-mode").Chance(1, 3) {
 			// same paths and contents, one permission bit differs: still one directory
 			for i := range tw.Files {
@@ -379,6 +394,61 @@ func genWorld(r *simkit.RNG, sc *Scenario, k *gknobs) {
 			}
 		}
 	}
+}
+
+// metaTwins turns one registry package (one run in ten) into one that offers two
+// versions differing in build metadata only, at different source addresses. Such versions
+// have no order between them, so every request for that package is rewritten to name
+// one version exactly (the constraint grammar and the final-address form both can).
+func metaTwins(r *simkit.RNG, sc *Scenario) {
+	if len(sc.Regs) == 0 || len(sc.Pkgs) < 2 || !r.Chance(1, 10) {
+		return
+	}
+	ri := r.Intn(len(sc.Regs))
+	rp := &sc.Regs[ri]
+	pa, pb := sc.Pkgs[0], sc.Pkgs[len(sc.Pkgs)-1]
+	rp.Versions = []RegVer{
+		{V: "1.0.0+linux", Source: pa.Source("")},
+		{V: "1.0.0+darwin", Source: pb.Source("")},
+		{V: "0.9.0", Source: pa.Source("")},
+	}
+	if r.Chance(1, 3) {
+		rp.Versions[1].DepReason, rp.Versions[1].DepLink = "deprecated darwin build", "https://example.com/dep/darwin"
+	}
+	exact := []string{"1.0.0+linux", "1.0.0+darwin", "0.9.0", "1.0.0+darwin"}
+	mine := func(addr string) bool {
+		pk, _ := splitSub(addr)
+		if i := strings.Index(pk, "@"); i >= 0 {
+			pk = pk[:i]
+		}
+		return pk == rp.Addr
+	}
+	for i := range sc.Adds {
+		a := &sc.Adds[i]
+		switch {
+		case a.Kind == "registry" && mine(a.Addr):
+			a.Constr = simkit.Pick(r, exact)
+		case a.Kind == "final" && mine(a.Addr):
+			pk, sub := splitSub(a.Addr)
+			pk = pk[:strings.Index(pk, "@")] + "@" + simkit.Pick(r, exact)
+			if sub != "" {
+				pk += "//" + sub
+			}
+			a.Addr = pk
+		}
+	}
+	for pi := range sc.Pkgs {
+		for mi := range sc.Pkgs[pi].Mods {
+			ds := sc.Pkgs[pi].Mods[mi].Deps
+			for di := range ds {
+				if ds[di].Kind == "registry" && mine(ds[di].Addr) {
+					ds[di].Constr = simkit.Pick(r, exact)
+				}
+			}
+		}
+	}
+	// make sure both twins are asked for
+	sc.Adds = append(sc.Adds, Add{Kind: "registry", Addr: rp.Addr, Constr: "1.0.0+linux", Finder: "F1"}, Add{Kind: "final", Addr: rp.Addr + "@1.0.0+darwin", Finder: "F1"})
 }
 
 func pickConstr(r *simkit.RNG, k *gknobs) string {
@@ -540,6 +610,15 @@ func addHostile(r *simkit.RNG, p *Pkg, i, np int, rootRun bool) {
 
 // genPkgRules draws a rule file for a package from the same grammar family as
 // the Pack world, over the package's own segment names.
+// padRules puts more than 64 KiB of comment lines in front of a rule file.
+func padRules(s string) string {
+	var b strings.Builder
+	for i := 0; b.Len() < 66000; i++ {
+		fmt.Fprintf(&b, "# padding line %06d ........................................\n", i)
+	}
+	return b.String() + s
+}
+
 func genPkgRules(r *simkit.RNG, p *Pkg) string {
 	var names []string
 	seen := map[string]bool{}
